@@ -16,6 +16,7 @@ import sys
 from vlib import core, pyrun, treesnap
 
 ID = "C13"
+READY = True
 LEVEL = "exploration"
 RULE = ("random histories of 25-60 steps over a 7-path universe (2 top-level modules, a package with 2 "
         "sub-modules, a nested package) with 4 source variants per path (plain / from / star / relative imports, "
